@@ -158,17 +158,21 @@ def _rmh_params():
 
 
 def cut(m, i, j, inherit=False):
-    """Cut bond i-j of `m`, cap both ends with H.  Returns the two fragment records
+    """Cut bond i-j of `m` (single; double only for the targeted library), cap both ends
+    with as many H as the bond order.  Returns the two fragment records
     [(smiles, boundary_index_in_parsed_smiles, boundary_symbol), ...] for the side of i and
     the side of j, or None when the capped fragments are not a valid decomposition
-    (harness self-check: compositions must add up to M + H2)."""
+    (harness self-check: compositions must add up to M + H2 per bond order)."""
+    bond = m.GetBondBetweenAtoms(i, j)
+    if bond is None or bond.GetBondType() not in (SINGLE, Chem.BondType.DOUBLE):
+        return None
+    n_cap = 1 if bond.GetBondType() == SINGLE else 2
     rw = Chem.RWMol(m)
     rw.RemoveBond(i, j)
-    caps = []
     for k in (i, j):
-        h = rw.AddAtom(Chem.Atom(1))
-        rw.AddBond(k, h, SINGLE)
-        caps.append(h)
+        for _ in range(n_cap):
+            h = rw.AddAtom(Chem.Atom(1))
+            rw.AddBond(k, h, SINGLE)
     rw.GetAtomWithIdx(i).SetIntProp("c09side", 0)
     rw.GetAtomWithIdx(j).SetIntProp("c09side", 1)
     whole = rw.GetMol()
@@ -207,7 +211,7 @@ def cut(m, i, j, inherit=False):
     if out[0] is None or out[1] is None:
         return None
     # harness self-check: fragments == M + H2
-    want = oracle.comp_add(oracle.comp_mol(m), {"H": 2})
+    want = oracle.comp_add(oracle.comp_mol(m), {"H": 2 * n_cap})
     got = oracle.comp_add(oracle.comp(out[0][0]), oracle.comp(out[1][0]))
     if want != got:
         return None
@@ -266,7 +270,8 @@ def do_merge(parts):
             "open": len(r.boundaries),
         }
     except Exception as e:  # classified by the caller
-        return {"exc": [type(e).__name__, str(e)[:300]]}
+        msg = [ln.strip() for ln in str(e).splitlines() if ln.strip()]
+        return {"exc": [type(e).__name__, " | ".join(msg[:3])[:300]]}
 
 
 def is_refusal(exc):
@@ -278,7 +283,7 @@ def is_refusal(exc):
 
 def invariants(out, frag_smiles):
     """General invariants.  Returns (key, what) of the first one broken, or None."""
-    names = [n for _, n in out["rules"]]
+    names = _merge_names(out)
     tables = rule_tables()
     res = oracle.parse(out["smiles"])
     if res is None:
@@ -310,6 +315,11 @@ def invariants(out, frag_smiles):
     if out["open"]:
         return ["boundary-left-open"] + names, "{} boundaries left open".format(out["open"])
     return None
+
+
+def _merge_names(out):
+    """names of the reported merge rules: the rule part of a root-cause key"""
+    return [n for k, n in out["rules"] if k == "MergeRule"]
 
 
 def _restriction(out, sym_a, sym_b):
@@ -348,7 +358,7 @@ def roundtrip_case(src, m, i, j, recs, first, fragmode):
     if inv:
         return out, _bad("roundtrip", case, out, None, inv[0],
                          "cut {}-{} of {}: {}".format(i, j, src, inv[1]))
-    names = [n for _, n in out["rules"]]
+    names = _merge_names(out)
     rname, mis = _restriction(out, si, sj)
     if rname is not None:
         if mis:
@@ -403,7 +413,7 @@ def single_case(src, m, i, j, recs, side, fragmode):
         return out, None
     if len(exp) != 1 or len(mrg) != 1 or len(out["rules"]) != 2:
         return out, _bad("single", case, out, "[expand rule, merge rule]",
-                         ["single-unexpected-rules"] + names,
+                         ["single-unexpected-rules"] + sorted(k for k, _ in out["rules"]),
                          "completion of one boundary reported rules {}".format(names))
     comp = tables["ExpandRule"][exp[0]]["compound"]
     cm = oracle.parse(comp["smiles"])
@@ -434,7 +444,7 @@ def single_case(src, m, i, j, recs, side, fragmode):
     if same == "same-modulo-charge-separation":
         out["modq"] = True
     if same is None:
-        return out, _bad("single", case, out, want, ["single-mismatch"] + names,
+        return out, _bad("single", case, out, want, ["single-mismatch"] + mrg,
                          "{}@{} + {} by {} gave {} not {}".format(
                              rec[0], rec[1], comp["smiles"], names, out["smiles"], want))
     return out, None
@@ -536,21 +546,42 @@ def cross_records(name):
     return _CROSS[name]
 
 
-def cross_pair(ra, rb):
-    case = {"a": {"src": ra[0], "cut": [ra[1], ra[2]]}, "b": {"src": rb[0], "cut": [rb[1], rb[2]]}}
+def _rec_case(r):
+    if r[1] is None:  # explicit record of the targeted library
+        return {"src": r[0], "frag": r[3], "bidx": r[4], "nidx": r[2]}
+    return {"src": r[0], "cut": [r[1], r[2]]}
+
+
+def _case_rec(c):
+    """inverse of _rec_case (replay)"""
+    m = Chem.MolFromSmiles(c["src"])
+    if "frag" in c:
+        f = Chem.MolFromSmiles(c["frag"])
+        return (c["src"], None, c["nidx"], c["frag"], c["bidx"],
+                f.GetAtomWithIdx(c["bidx"]).GetSymbol(),
+                m.GetAtomWithIdx(c["nidx"]).GetSymbol())
+    i, j = c["cut"]
+    r = cut(m, i, j)
+    if r is None:
+        return None
+    return (c["src"], i, j, r[0][0], r[0][1], r[0][2], m.GetAtomWithIdx(j).GetSymbol())
+
+
+def cross_pair(ra, rb, sub="cross"):
+    case = {"a": _rec_case(ra), "b": _rec_case(rb)}
     out = do_merge([(ra[3], ra[4], ra[5], ra[0], ra[2], ra[6]),
                     (rb[3], rb[4], rb[5], rb[0], rb[2], rb[6])])
     if "exc" in out:
         if is_refusal(out["exc"]):
             return out, None
-        return out, _bad("cross", case, out, "merged compound or a documented refusal",
+        return out, _bad(sub, case, out, "merged compound or a documented refusal",
                          ["exception", out["exc"][0]],
                          "merge of {}@{} (from {}) + {}@{} (from {}) raised {}: {}".format(
                              ra[3], ra[4], ra[0], rb[3], rb[4], rb[0], out["exc"][0],
                              out["exc"][1]))
     inv = invariants(out, [ra[3], rb[3]])
     if inv:
-        return out, _bad("cross", case, out, None, inv[0],
+        return out, _bad(sub, case, out, None, inv[0],
                          "{}@{} (from {}) + {}@{} (from {}): {}".format(
                              ra[3], ra[4], ra[0], rb[3], rb[4], rb[0], inv[1]))
     return out, None
@@ -582,6 +613,76 @@ def cross_row(item):
             if per_key[k] <= 3:
                 acc["bad"].append(bad)
     return acc
+
+
+# ---- rule-targeted library (the merge rules no single-bond cut of a small molecule reaches)
+
+# fragment containing the first atom; bond may be double (carbonyl O, vinyl C)
+TARGET_O = [  # oxygen boundaries whose neighbour carbon carries the functional group
+    ("CC(C)=O", 3, 1), ("CC=O", 2, 1), ("COC(C)=O", 4, 2), ("CC(=O)O", 2, 1),
+    ("CC(N)=O", 3, 1), ("CC(=O)O", 3, 1), ("CCO", 2, 1), ("C=CO", 2, 1),
+    ("Oc1ccccc1", 0, 1),
+]
+TARGET_P = [  # phosphorus boundaries with and without P=O
+    ("CP", 1, 0), ("CP(C)C", 1, 0), ("BrP(Br)Br", 1, 0), ("CP(C)(C)=O", 1, 0),
+    ("CP(=O)(O)O", 1, 0), ("COP(C)(=O)OC", 2, 3),
+]
+TARGET_VINYL = [("C=C", 0, 1), ("CC=C", 1, 2), ("CC=C", 2, 1)]
+# diazo fragments as the pipeline standardises them (cf. Test/SynMCSImputer/test_merge.py):
+# (src, None, neighbour index in src, fragment, boundary index)
+TARGET_DIAZO = [
+    ("CS(=O)(=O)N=[N+]=[N-]", None, 5, "N#N", 0),
+    ("CN=[N+]=[N-]", None, 1, "N#N", 0),
+]
+
+
+def targeted_pairs():
+    def recs(specs):
+        out = []
+        for src, i, j in specs:
+            r = _case_rec({"src": src, "cut": [i, j]})
+            if r is None:
+                raise ValueError("targeted library: cannot cut {} {}-{}".format(src, i, j))
+            out.append(r)
+        return out
+
+    o, p, v = recs(TARGET_O), recs(TARGET_P), recs(TARGET_VINYL)
+    d = [_case_rec({"src": s, "frag": f, "bidx": b, "nidx": n}) for s, _, n, f, b in TARGET_DIAZO]
+    pairs = []
+    for x, y in [(o, p), (v, d)]:
+        for a in x:
+            for b in y:
+                pairs.append((a, b))
+                pairs.append((b, a))
+    return pairs
+
+
+def targeted_all(_):
+    """worker: the whole targeted library (a few hundred merges)"""
+    acc = {"n": 0, "hist": {}, "exceptions": 0, "bad": [], "nontrivial": 0,
+           "nondefault": 0, "nbad": 0}
+    for ra, rb in targeted_pairs():
+        out, bad = cross_pair(ra, rb, sub="targeted")
+        acc["n"] += 1
+        _tally(acc, out)
+        names = [n for k, n in out.get("rules", []) if k == "MergeRule"]
+        if names:
+            acc["nontrivial"] += 1
+            if any(n != "default single bond" for n in names):
+                acc["nondefault"] += 1
+        if bad:
+            acc["nbad"] += 1
+            acc["bad"].append(bad)
+    return acc
+
+
+def alkoxy_probe(_):
+    """worker: observation only.  The alkoxy oxygen of an ester (single-bond cut O-C(=O),
+    fragment = the alcohol) also satisfies the 'phosphor double bond' conditions."""
+    a = _case_rec({"src": "COC(C)=O", "cut": [1, 2]})
+    b = _case_rec({"src": "CP(C)C", "cut": [1, 0]})
+    out = do_merge([(a[3], a[4], a[5], a[0], a[2], a[6]), (b[3], b[4], b[5], b[0], b[2], b[6])])
+    return out
 
 
 # ------------------------------------------------------------------ spaces
@@ -691,16 +792,25 @@ def run(tier, seed):
     n_rec = len(cross_records(cname))
     r3 = pmap("checks.c09:cross_row", [(cname, a) for a in range(n_rec)], chunk=4, seed=seed)
     _collect(res, r3, per_key)
+    r4 = pmap("checks.c09:targeted_all", [0], chunk=1, seed=seed)
+    _collect(res, r4, per_key)
+    probe = pmap("checks.c09:alkoxy_probe", [0], chunk=1, seed=seed)[0]
+    if "exc" in probe:
+        res.observations.append(
+            "outside the explored bounds: the alkoxy oxygen of an ester (fragment CO from "
+            "COC(C)=O cut at O-C(=O)) merged with a phosphorus boundary (CPC from CP(C)C) "
+            "matches rule 'phosphor double bond' and merge() raises {}: {} (the pipeline "
+            "records it as the row's issue)".format(probe["exc"][0], probe["exc"][1]))
 
     def tot(accs, k):
         return sum(a[k] for a in accs)
 
-    hist = _merge_hist(r1) + _merge_hist(r2) + _merge_hist(r3)
+    hist = _merge_hist(r1) + _merge_hist(r2) + _merge_hist(r3) + _merge_hist(r4)
     hist_rt_single = _merge_hist(r1) + _merge_hist(r2)
-    evaluations = tot(r1, "n") + tot(r2, "n") + tot(r3, "n")
+    evaluations = tot(r1, "n") + tot(r2, "n") + tot(r3, "n") + tot(r4, "n")
     nontrivial = (tot(r1, "rt_nontrivial") + tot(r1, "single_nontrivial")
-                  + tot(r3, "nontrivial"))
-    n_bad = tot(r1, "nbad") + tot(r2, "nbad") + tot(r3, "nbad")
+                  + tot(r3, "nontrivial") + tot(r4, "nontrivial"))
+    n_bad = tot(r1, "nbad") + tot(r2, "nbad") + tot(r3, "nbad") + tot(r4, "nbad")
     ex_i = len(canon_items) // 2
     res.coverage = {
         "evaluations": evaluations,
@@ -720,6 +830,8 @@ def run(tier, seed):
         "rules_fired": dict(sorted(hist.items())),
         "rules_fired_roundtrip_and_single": dict(sorted(hist_rt_single.items())),
         "rules_fired_cross": dict(sorted(_merge_hist(r3).items())),
+        "rules_fired_targeted": dict(sorted(_merge_hist(r4).items())),
+        "targeted_pairs": tot(r4, "n"),
         "molecules": len(canon_items),
         "bonds_cut": tot(r1, "bonds"),
         "roundtrip_merges": tot(r1, "rt") + tot(r2, "rt"),
@@ -735,7 +847,8 @@ def run(tier, seed):
         "cross_fragment_records": n_rec,
         "cross_pairs": tot(r3, "n"),
         "cross_pairs_nondefault_rule": tot(r3, "nondefault"),
-        "exceptions_from_merge": tot(r1, "exceptions") + tot(r2, "exceptions") + tot(r3, "exceptions"),
+        "exceptions_from_merge": (tot(r1, "exceptions") + tot(r2, "exceptions")
+                                  + tot(r3, "exceptions") + tot(r4, "exceptions")),
         "cuts_skipped_by_harness_selfcheck": tot(r1, "skipped") + tot(r2, "skipped"),
         "violating_cases": n_bad,
         "exhaustive": True,
@@ -764,17 +877,11 @@ def replay(v):
             _, bad = roundtrip_case(c["src"], m, i, j, recs, c["first"], c["frag"])
         else:
             _, bad = single_case(c["src"], m, i, j, recs, c["side"], c["frag"])
-    elif v.sub == "cross":
-        rr = []
-        for side in (c["a"], c["b"]):
-            m = Chem.MolFromSmiles(side["src"])
-            i, j = side["cut"]
-            r = cut(m, i, j)
-            if r is None:
-                return []
-            rr.append((side["src"], i, j, r[0][0], r[0][1], r[0][2],
-                       m.GetAtomWithIdx(j).GetSymbol()))
-        _, bad = cross_pair(rr[0], rr[1])
+    elif v.sub in ("cross", "targeted"):
+        ra, rb = _case_rec(c["a"]), _case_rec(c["b"])
+        if ra is None or rb is None:
+            return []
+        _, bad = cross_pair(ra, rb, sub=v.sub)
     if bad is None:
         return []
     return [Violation(bad["sub"], bad["case"], bad["observed"], bad["expected"], bad["key"],
